@@ -358,6 +358,12 @@ EXTRA_TEXT = {
         "refuted (up to 661k states); transition covers and simulations realised as straight-line scripts with exact counter predictions, seeded random multi-script "
         "programs incl. fills up to the 2048 limit, hand-assembled self-recursive scripts, and the same schedules as deployed contracts through System.Contract.Call; "
         "VMXRefTrace.tla judges every per-instruction observation (counter vs a real walk over every context's stack, slots and arguments).",
+ "C16": " Extension dyn (spec/flagsdyn, harness/c16dyn): the clauses while the contract table CHANGES inside a transaction and between the transactions of a block "
+        "(self-update then call / callback / CALLT / re-entry, callee updated or destroyed earlier, redeploy of a destroyed hash, fresh deploy, management operations "
+        "as gated effects, _deploy callbacks): clauses evaluated against the table at the time of each call, 'its permissions' = the executing version from Domovoi on and "
+        "the stored manifest before (documented semantics, both rules modelled and bound); a call.go / management.go-shaped model refines them (up to 4.6M states, ten "
+        "named deviations refuted); TLC behaviours, 3 516 scripted situations and seeded histories run as real transactions on chains with and without Domovoi, observed per "
+        "instruction and confirmed against the real block's application log; FlagsDynTrace judges every frame, effect and management operation.",
  "C18": " Extension keys (spec/keys, harness/c18keys): KeyAlgebra.tla - 11 sorts, 27 operations over uninterpreted primitives with an outcome class and normal "
         "form per term and the laws (sign/verify soundness incl. altered signatures, Dec(Enc(x)) = x for public / private keys, WIF and NEP-2, NEP-2 opens exactly for the "
         "NFC class of its passphrase, mangled inputs refused or decoded to something else, verification script / script hash / address agree); every term with <= 5 "
